@@ -137,6 +137,14 @@ def sweep_fields(quick: bool, seed: int):
         for mo in range(1, 13):
             for d in range(1, calendar.monthrange(y, mo)[1] + 1):
                 out.append((y, mo, d, 1, 2, 3, 0xFF, None, 0, 0xFF))
+    # every 29 February of every leap year 1..9999, and the month ends of century and other special years
+    for y in range(4, 10000, 4):
+        if calendar.isleap(y):
+            out.append((y, 2, 29, 23, 59, 59, 0xFF, -60, 0, 0xFF))
+    for y in sorted(set(list(range(100, 10000, 100)) + [1, 2, 3, 4, 5, 1582, 1583, 1899, 1900, 1901, 1970, 1999, 2038, 2100, 9998, 9999])):
+        for mo in range(1, 13):
+            out.append((y, mo, calendar.monthrange(y, mo)[1], 0, 0, 0, 0xFF, None, 0, 0xFF))
+            out.append((y, mo, 1, 0, 0, 0, 0xFF, None, 0, 0xFF))
     step = 61 if quick else 1
     for t in range(0, 86400, step):
         out.append((2022, 6, 15, t // 3600, t // 60 % 60, t % 60, 0xFF, 120, 0, 0xFF))
@@ -149,6 +157,23 @@ def sweep_fields(quick: bool, seed: int):
         out.append((y, mo, rnd.randint(1, calendar.monthrange(y, mo)[1]), rnd.randint(0, 23), rnd.randint(0, 59), rnd.randint(0, 59),
                     rnd.choice([0xFF] + list(range(100))), rnd.choice([None] + list(range(-720, 721))), rnd.randrange(256), rnd.randrange(256)))
     return out
+
+
+def _work_calendar(task) -> core.Part:
+    """Thorough tier: every valid calendar date of the years in this task, in one position (the date-time grammar is shared)."""
+    y0, y1 = task
+    p = core.Part()
+    for y in range(y0, y1):
+        for mo in range(1, 13):
+            for d in range(1, calendar.monthrange(y, mo)[1] + 1):
+                f = (y, mo, d, 12, 0, 0, 0xFF, None, 0, 0xFF)
+                e = check("kamstrup_clock", f)
+                p.add("evaluations")
+                if e:
+                    p.viol("datetime", f"datetime:kamstrup_clock:{RC.dt12(*f).hex()}", e[0], {"position": "kamstrup_clock", "fields": list(f)}, size=1)
+                    if p.full("datetime"):
+                        return p
+    return p
 
 
 def main(run: core.Run) -> int:
@@ -168,10 +193,14 @@ def main(run: core.Run) -> int:
             tasks.append((pos, fl[i:i + 1500]))
     run.log(f"{len(prod)} product + {len(sw)} sweep date-times x {len(POSITIONS)} positions = {len(tasks)} partitions")
     run.merge(par.pmap(_work, tasks, seed=run.seed))
+    if not q:
+        run.log("complete calendar 1..9999 in one position")
+        run.merge(par.pmap(_work_calendar, [(y, min(y + 50, 10000)) for y in range(1, 10000, 50)], seed=run.seed))
     tot = run.total
     tot.sample({"position": "apdu_tagged", "octets": RC.dt12(2024, 2, 29, 23, 59, 59, 99, -720, 0x80, 7).hex(), "expected": str(RC.exp_dt(2024, 2, 29, 23, 59, 59, 99, -720, 0x80, 7))})
     tot.sample({"position": "kamstrup_clock", "octets": RC.dt12(1, 1, 1, 0, 0, 0, 0xFF, None, 0xFF, 0xFF).hex(), "expected": str(RC.exp_dt(1, 1, 1, 0, 0, 0))})
-    run.bounds = {"product": len(prod), "sweeps": len(sw), "positions": list(POSITIONS)}
+    run.bounds = {"product": len(prod), "sweeps": len(sw), "positions": list(POSITIONS), "leap_days": "every 29 February of years 4..9996; first/last day of every month of all century years",
+                  "complete_calendar": "thorough: every valid date of years 1..9999 in the Kamstrup clock position"}
     run.assumptions = ["reference encoders mc/ref/cosem.py (bound to the fixtures)", "fields outside the alphabets are covered by single-field sweeps only (no full cross product)"]
     ev = tot.c.get("evaluations", 0)
     return run.finish(states=ev, transitions=ev, traces=ev, evaluations=ev, distinct_nontrivial=ev)
